@@ -22,6 +22,10 @@ TRUSTED_BASE = [
 ]
 
 
+class HarnessBudget(BaseException):
+    """raised by the CPU-time safety net of run_check (BaseException: harness code that catches Exception lets it through)"""
+
+
 class Lock:
     """serialise lake invocations (several checks may run at once)"""
 
@@ -221,10 +225,24 @@ def run_check(prop, tier, seed, replay=None):
     result = {}
     infra = None
     if os.path.exists(DRIVER):
+        # safety net: a changed library can make a harness loop for ever (a scheduler that never drains, a sender that never
+        # stops retransmitting).  The budget is user CPU time of this process - robust against a busy machine - and generous.
+        import signal
+        budget = int(os.environ.get('VERIF_CPU_BUDGET', '1200' if tier == 'quick' else '5400'))
+
+        def on_budget(signum, frame):
+            raise HarnessBudget(f'the correspondence run used more than {budget} s of CPU time and was stopped')
+        old_h = signal.signal(signal.SIGVTALRM, on_budget)
+        signal.setitimer(signal.ITIMER_VIRTUAL, budget, 5.0)      # re-fires: harness code may catch BaseException around library calls
         try:
             result = mod.run(ctx) or {}
+        except HarnessBudget as x:
+            infra = str(x)
         except Exception:
             infra = traceback.format_exc()
+        finally:
+            signal.setitimer(signal.ITIMER_VIRTUAL, 0)
+            signal.signal(signal.SIGVTALRM, old_h)
     else:
         infra = 'driver executable missing (lake build failed)'
         if au['build_ok']:
